@@ -148,3 +148,161 @@ def _gen(repo):
 
 
 EXTRACTORS = {"parserwiring": ("ParserWiring.lean", _gen)}
+
+
+# ------------------------------------------------------------------ third-party character classes
+# The hand models of lean/SophiaModel/Model/Backend.lean transcribe recognisers of third-party crates.  Their
+# character classes (the long, error-prone part) are regenerated here from the very sources cargo compiles:
+# the crate versions pinned by /repo/Cargo.lock, read from the cargo registry.  Props/C08.lean proves each hand
+# class equal (as a language) to the generated one, so a `cargo update` that changes a class, or a slip of the
+# transcription, fails a proof obligation.
+
+import glob
+import os
+
+_CRATES = ("rio_turtle", "oxiri", "oxilangtag", "rio_xml")
+
+
+def _locked_versions(repo):
+    lock = read(repo, "Cargo.lock")
+    out = {}
+    for m in re.finditer(r'\[\[package\]\]\s*name = "([^"]+)"\s*version = "([^"]+)"', lock):
+        if m.group(1) in _CRATES:
+            if m.group(1) in out:
+                raise ExtractError("Cargo.lock pins two versions of %s" % m.group(1))
+            out[m.group(1)] = m.group(2)
+    for c in _CRATES:
+        if c not in out:
+            raise ExtractError("Cargo.lock does not pin %s" % c)
+    return out
+
+
+def _crate_file(crate, version, rel):
+    home = os.environ.get("CARGO_HOME") or os.path.join(os.path.expanduser("~"), ".cargo")
+    hits = sorted(glob.glob(os.path.join(home, "registry", "src", "*", "%s-%s" % (crate, version), rel)))
+    if hits:
+        with open(hits[0], encoding="utf-8") as f:
+            return f.read()
+    # not unpacked yet (cargo unpacks on the first build): read the member of the downloaded .crate archive
+    import tarfile
+    for arc in sorted(glob.glob(os.path.join(home, "registry", "cache", "*", "%s-%s.crate" % (crate, version)))):
+        try:
+            with tarfile.open(arc, "r:gz") as t:
+                f = t.extractfile("%s-%s/%s" % (crate, version, rel))
+                if f is not None:
+                    return f.read().decode("utf-8")
+        except (OSError, KeyError, tarfile.TarError):
+            continue
+    raise ExtractError("source of %s %s (%s) not found in the cargo registry" % (crate, version, rel))
+
+
+_CHAR = r"'(?:\\u\{([0-9A-Fa-f]+)\}|\\(.)|([^'\\]))'"
+
+
+_CHAR_RE = re.compile(_CHAR)
+
+
+def _cp(m, off):
+    if m.group(off + 1) is not None:
+        return int(m.group(off + 1), 16)
+    if m.group(off + 2) is not None:
+        return ord({"n": "\n", "t": "\t", "r": "\r", "0": "\0"}.get(m.group(off + 2), m.group(off + 2)))
+    return ord(m.group(off + 3))
+
+
+def _arms(text):
+    """code point ranges of the arms of a `matches!(c, 'a'..='z' | '_' | …)`: text between `matches!(c,` and its `)`"""
+    out = []
+    pos = 0
+    arm = re.compile(r"\s*\|?\s*%s(?:\s*\.\.=\s*%s)?" % (_CHAR, _CHAR))
+    while True:
+        m = arm.match(text, pos)
+        if not m:
+            break
+        lo = _cp(m, 0)
+        hi = _cp(m, 3) if (m.group(4) is not None or m.group(5) is not None or m.group(6) is not None) else lo
+        out.append((lo, hi))
+        pos = m.end()
+    if text[pos:].strip():
+        raise ExtractError("unparsed arm text: %r" % text[pos:pos + 40])
+    return out
+
+
+def _matches_in(src, fn_header_re, nth=0):
+    """arms of the nth `matches!(c, …)` inside the function whose header matches"""
+    body = _fn_body(re.sub(r"//[^\n]*", "", src), fn_header_re)
+    if body is None:
+        raise ExtractError("function %s not found" % fn_header_re)
+    ms = list(re.finditer(r"matches!\(\s*c\s*,", body))
+    if len(ms) <= nth:
+        raise ExtractError("no matches!(c, …) #%d in %s" % (nth, fn_header_re))
+    i = ms[nth].end()
+    depth, j = 1, i
+    while j < len(body) and depth:
+        # parentheses inside character literals ('(' and ')') must not count
+        if body[j] == "'":
+            lit = _CHAR_RE.match(body, j)
+            j = lit.end() if lit else j + 1
+            continue
+        depth += body[j] == "("
+        depth -= body[j] == ")"
+        j += 1
+    return _arms(body[i:j - 1]), body
+
+
+def _lean_ranges(rs):
+    return "[" + ", ".join("(%d, %d)" % r for r in rs) + "]"
+
+
+def _classes(repo):
+    v = _locked_versions(repo)
+    shared = _crate_file("rio_turtle", v["rio_turtle"], "src/shared.rs")
+    base, _ = _matches_in(shared, r"pub fn is_possible_pn_chars_base_unicode\(c: char\) -> bool \{")
+    extra, pn_body = _matches_in(shared, r"pub fn is_possible_pn_chars_unicode\(c: char\) -> bool \{")
+    u_body = _fn_body(shared, r"pub fn is_possible_pn_chars_u_unicode\(c: char\) -> bool \{") or ""
+    u_is = re.fullmatch(r"is_possible_pn_chars_base_unicode\(c\) \|\| c == '_'", re.sub(r"\s+", " ", u_body).strip()) is not None
+    pn_is = re.sub(r"\s+", " ", pn_body).strip().startswith("is_possible_pn_chars_u_unicode(c) || matches!(c,")
+    ox = _crate_file("oxiri", v["oxiri"], "src/lib.rs")
+    ius, _ = _matches_in(ox, r"fn is_iunreserved_or_sub_delims\(c: char\) -> bool \{")
+    us, _ = _matches_in(ox, r"fn is_unreserved_or_sub_delims\(c: char\) -> bool \{")
+    qm = re.search(r"is_iunreserved_or_sub_delims\(c\) \|\| matches!\(c, ((?:[^()]|'\('|'\)')*?'\\u\{100000\}'\.\.='\\u\{10FFFD\}')\)", ox)
+    if not qm:
+        raise ExtractError("oxiri: the query code point test was not found")
+    query_extra = _arms(qm.group(1))
+    xml = _crate_file("rio_xml", v["rio_xml"], "src/utils.rs")
+    ns, _ = _matches_in(xml, r"pub fn is_name_start_char\(c: char\) -> bool \{")
+    ne, nc_body = _matches_in(xml, r"pub fn is_name_char\(c: char\) -> bool \{")
+    nc_is = re.sub(r"\s+", " ", nc_body).strip().startswith("is_name_start_char(c) || matches!(c,")
+    lt = _crate_file("oxilangtag", v["oxilangtag"], "src/lib.rs")
+    gm = re.search(r"const GRANDFATHEREDS: \[&str; (\d+)\] = \[(.*?)\];", lt, re.S)
+    if not gm:
+        raise ExtractError("oxilangtag: GRANDFATHEREDS not found")
+    gf = re.findall(r'"([^"]*)"', gm.group(2))
+    if len(gf) != int(gm.group(1)):
+        raise ExtractError("oxilangtag: GRANDFATHEREDS length mismatch")
+    out = [HEADER, "namespace SophiaModel.Gen.BackendClasses\n",
+           "/-- crate versions pinned by /repo/Cargo.lock; the classes below are read from these sources in the cargo registry -/\n",
+           "def versions : List (String × String) := [%s]\n" % ", ".join('("%s", "%s")' % (c, v[c]) for c in _CRATES),
+           "/-- rio_turtle shared.rs `is_possible_pn_chars_base_unicode` -/\n",
+           "def rioPnCharsBase : List (Nat × Nat) := %s\n" % _lean_ranges(base),
+           "/-- `is_possible_pn_chars_u_unicode(c)` is `is_possible_pn_chars_base_unicode(c) || c == '_'` -/\n",
+           "def rioPnCharsUIsBaseOrUnderscore : Bool := %s\n" % ("true" if u_is else "false"),
+           "/-- the arms `is_possible_pn_chars_unicode` adds to `is_possible_pn_chars_u_unicode` -/\n",
+           "def rioPnCharsExtra : List (Nat × Nat) := %s\n" % _lean_ranges(extra),
+           "def rioPnCharsIsUOrExtra : Bool := %s\n" % ("true" if pn_is else "false"),
+           "/-- oxiri `is_iunreserved_or_sub_delims` / `is_unreserved_or_sub_delims` -/\n",
+           "def oxiriIus : List (Nat × Nat) := %s\n" % _lean_ranges(ius),
+           "def oxiriUs : List (Nat × Nat) := %s\n" % _lean_ranges(us),
+           "/-- what oxiri's query loop accepts beyond `is_iunreserved_or_sub_delims` (and `%` escapes) -/\n",
+           "def oxiriQueryExtra : List (Nat × Nat) := %s\n" % _lean_ranges(query_extra),
+           "/-- rio_xml utils.rs `is_name_start_char`, and the arms `is_name_char` adds -/\n",
+           "def xmlNameStart : List (Nat × Nat) := %s\n" % _lean_ranges(ns),
+           "def xmlNameExtra : List (Nat × Nat) := %s\n" % _lean_ranges(ne),
+           "def xmlNameCharIsStartOrExtra : Bool := %s\n" % ("true" if nc_is else "false"),
+           "/-- oxilangtag `GRANDFATHEREDS` (matched ignoring ASCII case) -/\n",
+           "def grandfathered : List String := [%s]\n" % ", ".join('"%s"' % g for g in gf),
+           "end SophiaModel.Gen.BackendClasses\n"]
+    return "".join(out), {"versions": v, "classes": 8, "grandfathered": len(gf)}
+
+
+EXTRACTORS["backendclasses"] = ("BackendClasses.lean", _classes)
